@@ -170,7 +170,7 @@ void h_DoMiter(void) { ClipperOffset* s; Path64 p; size_t j, k; double c; DoMite
 //@run name=DoBevel entry=h_DoBevel enforce=DoBevel defs=BEVEL flags="--bounds-check --pointer-check" unwind=9 timeout=300
 //@run name=DoMiter entry=h_DoMiter enforce=DoMiter defs=MITER flags="--bounds-check --pointer-check" unwind=9 timeout=300
 //@run name=DoRound entry=h_DoRound enforce=DoRound loops=1 defs=ROUND flags="--bounds-check --pointer-check" unwind=9 timeout=300
-//@run name=DoSquare.join entry=h_DoSquare enforce=DoSquare replace=vf_gsi,vf_avg defs=SQUARE,MAXN=2 flags="--bounds-check --pointer-check" unwind=9 timeout=600
-//@run name=DoSquare.endcap entry=h_DoSquare enforce=DoSquare replace=vf_gsi,vf_avg defs=SQUARE,MAXN=2,ENDCAP flags="--bounds-check --pointer-check" unwind=9 timeout=600
+//@run name=DoSquare.join entry=h_DoSquare enforce=DoSquare replace=vf_gsi,vf_avg defs=SQUARE,MAXN=2 flags="--bounds-check --pointer-check" unwind=9 nocross=1 timeout=600
+//@run name=DoSquare.endcap entry=h_DoSquare enforce=DoSquare replace=vf_gsi,vf_avg defs=SQUARE,MAXN=2,ENDCAP flags="--bounds-check --pointer-check" unwind=9 nocross=1 timeout=600
 //@assume A5 (C06_joins): GetSegmentIntersectPt(PointD) and GetAvgUnitVector are recording stubs that return arbitrary points (intersection accuracy and normalisation are not decided).
 //@assume R21b/c (commutative form): in this unit every floating-point product, quotient, sum and difference and the double->int64 rounding are applications of uninterpreted functions; products and sums order their operands by bit pattern first, so commuted operands give the same term. A rewrite that is bit-identical in IEEE arithmetic but not by commutativity (e.g. a + (-b)*c for a - b*c) would be reported although the property holds; none exists on the current tree.
